@@ -208,7 +208,13 @@ def run(repo: Repo) -> Result:
         if len(vcalls) != 1 or len(vcalls[0].args) != 2 or not is_name(vcalls[0].args[1], stack):
             res.add("C21-STACK", audit.qual, f"inner-validated-against:{text(vcalls[0].args[1]) if vcalls and len(vcalls[0].args) == 2 else None}", f"an inner tag must be validated against the stack of open blocks itself (`{stack}`): any derived container (a set of names, a counter) forgets that an enclosing block of the same name is still open after a nested one closes", audit.file, audit.line)
         # every other container that mirrors the stack is suspicious: adds/discards next to push/pop
+        # (only inside the token loop that pushes and pops: sets built beforehand from the tag
+        #  registry — block tag names, end tag names — do not change while tokens are audited)
+        token_loops = [lp for lp in ast.walk(audit.node) if isinstance(lp, (ast.For, ast.While)) and any(any(p is x for x in ast.walk(lp)) for p in pushes + pops)]
+        in_loop = {id(x) for lp in token_loops for x in ast.walk(lp)}
         for c in calls(audit.node):
+            if id(c) not in in_loop:
+                continue
             if callee_name(c) in ("add", "discard", "remove") and isinstance(call_recv(c), ast.Name) and call_recv(c).id != stack and call_recv(c).id not in ("unclosed_tags", "unexpected_tags", "unknown_tags"):
                 res.add("C21-STACK", audit.qual, f"shadow-container:{call_recv(c).id}", f"_audit_tags mirrors the block stack in `{call_recv(c).id}` ({text(c)[:40]}): a set cannot count nested blocks of the same name", audit.file, c.lineno)
         after = [s for s in audit.node.body if isinstance(s, ast.For) and is_name(s.iter, stack)]
